@@ -1169,6 +1169,38 @@ pub fn minimal_record(h: &HeaderDesc, at: &RecDesc, kind: u64) -> RecDesc {
     r
 }
 
+/// Deterministic records (site columns of `at`, FORMAT `GT` only) whose genotypes have ploidy 3 and 4
+/// with EVERY order of `/` and `|` separators; from VCF 4.4 on each also with the first allele's
+/// phasing explicitly opposite to the implied one. Sample 0 carries the pattern, the other samples
+/// the mirrored pattern. Empty when the header has no samples or no GT definition.
+pub fn gt_separator_matrix(h: &HeaderDesc, at: &RecDesc) -> Vec<RecDesc> {
+    let mut out = Vec::new();
+    if h.samples.is_empty() || h.format("GT").is_none() {
+        return out;
+    }
+    let n_alleles = at.alts.len() as u32 + 1;
+    for ploidy in [3usize, 4] {
+        for mask in 0..(1u32 << (ploidy - 1)) {
+            let firsts: &[bool] = if h.fileformat >= (4, 4) { &[false, true] } else { &[false] };
+            for &flip_first in firsts {
+                let build = |m: u32| -> Vec<GtAllele> {
+                    let mut g: Vec<GtAllele> = (0..ploidy).map(|i| GtAllele { allele: Some(i as u32 % n_alleles), phased: i > 0 && (m >> (i - 1)) & 1 == 1 }).collect();
+                    let implied = implied_first_phasing(&g);
+                    g[0].phased = implied != flip_first;
+                    g
+                };
+                let mirror = (0..ploidy - 1).fold(0u32, |acc, i| acc | (((mask >> i) & 1) << (ploidy - 2 - i)));
+                let mut r = at.clone();
+                r.info.clear();
+                r.format = vec!["GT".into()];
+                r.samples = (0..h.samples.len()).map(|si| vec![Some(Val::Gt(build(if si == 0 { mask } else { mirror })))]).collect();
+                out.push(r);
+            }
+        }
+    }
+    out
+}
+
 /// A coordinate-sorted set over the contigs of `h` (in header order) with unique IDs `v1..vN`:
 /// spans straddling the 16 kb / 128 kb / 1 Mb / 8 Mb / 64 Mb bin edges, long-before-short patterns
 /// inside one window, several records at one position, empty contigs. Needs declared contigs; their
